@@ -13,7 +13,7 @@
     metricOf                                   [metric_of]
     addGeomean                                 [geomean_row]
     ByName / ByDelta / Reverse / Sort          [order_less] / [go_stable_sort]
-    fmt.Sprintf("%+.2f%%"), ("%0.3f"), "%d"    [fmt_f], [dec_of_N]  (exact)
+    fmt.Sprintf("%+.2f%%"), ("%0.3f"), "%d"    [fmt_f] (= FmtFixed.fmt_fixed + sign rule), [dec_of_nat]
     toText / toCSV (labels, delta column)      [text_lines], [csv_lines]
 
     The old reader golang.org/x/perf/storage/benchfmt (line splitting, labels)
@@ -22,8 +22,8 @@
     value fields, the NameLabels/Labels entries of the SplitBy keys).
     The significance test is a parameter [dtest]; stats.GeoMean is StatsF's
     [geomean_f] over log/exp oracles. No proofs in this file. *)
-From Coq Require Import ZArith List Bool DecimalString Strings.String Strings.Byte.
-From Perf Require Import Base.Bytes Base.Sx Base.B64 Model.StatsF.
+From Coq Require Import ZArith List Bool Strings.String Strings.Byte.
+From Perf Require Import Base.Bytes Base.Sx Base.B64 Base.FmtFixed Model.StatsF.
 Import ListNotations.
 Local Open Scope Z_scope.
 
@@ -36,44 +36,14 @@ Definition trim_suffix (s suf : bytes) : bytes :=
   if has_suffix s suf then firstn (length s - length suf) s else s.
 
 (** decimal digits of a natural number ("%d" of a non-negative int) *)
-Definition dec_of_N (n : N) : bytes :=
-  list_byte_of_string (NilEmpty.string_of_uint (N.to_uint n)).
-Definition dec_of_nat (n : nat) : bytes := dec_of_N (N.of_nat n).
+Definition dec_of_nat (n : nat) : bytes := dec_digits (Z.of_nat n).
 
-(** * fmt's %.<p>f / %+.<p>f of a float64: the correctly rounded (half-even on
-    the exact binary value) decimal with [p] fractional digits *)
-Definition round_half_even_div (num den : Z) : Z :=
-  let q := num / den in
-  let r := num mod den in
-  if 2 * r <? den then q
-  else if den <? 2 * r then q + 1
-  else if Z.even q then q else q + 1.
-
-(** |x| * 10^p rounded to an integer, |x| = m * 2^e *)
-Definition scaled_abs (m : positive) (e : Z) (p : nat) : Z :=
-  if 0 <=? e then Zpos m * 2 ^ e * 10 ^ Z.of_nat p
-  else round_half_even_div (Zpos m * 10 ^ Z.of_nat p) (2 ^ (- e)).
-
-Definition c_0 : byte := x30.
-Definition c_dot : byte := x2e.
-
-Definition fixed_digits (n : Z) (p : nat) : bytes :=
-  let ds := dec_of_N (Z.abs_N n) in
-  let ds := repeat c_0 (S p - length ds) ++ ds in
-  let k := (length ds - p)%nat in
-  match p with
-  | O => ds
-  | _ => firstn k ds ++ c_dot :: skipn k ds
-  end.
-
+(** * fmt's %.<p>f / %+.<p>f of a float64: strconv's exact fixed notation
+    (Base/FmtFixed.v: the round-half-even decimal of the exact binary value),
+    with fmt's sign rule: the '+' flag puts a '+' before everything that has
+    no sign of its own (NaN included; strconv already writes "+Inf") *)
 Definition fmt_f (plus : bool) (p : nat) (x : b64) : bytes :=
-  let sign (s : bool) := if s then bs "-" else if plus then bs "+" else [] in
-  match x with
-  | S754_nan => if plus then bs "+NaN" else bs "NaN"
-  | S754_infinity s => if s then bs "-Inf" else bs "+Inf"
-  | S754_zero s => sign s ++ fixed_digits 0 p
-  | S754_finite s m e => sign s ++ fixed_digits (scaled_abs m e p) p
-  end.
+  (if plus && negb (b64_signbit x) && negb (b64_is_inf x) then [x2b] else []) ++ fmt_fixed x p.
 
 (** * the collection *)
 
@@ -491,3 +461,13 @@ Definition all_records (split : list bytes) (cfs : list (bytes * list result)) :
 
 Definition benches_of_spec (recs : list (key * b64)) (g : bytes) : list bytes :=
   firsts (map (fun r => k_bench (fst r)) (filter (fun r => beq (k_group (fst r)) g) recs)).
+
+(** the overflow guard of the incremental mean: no difference [x - m] formed
+    while averaging overflows to an infinity (every other operation of a step
+    is then finite as well, see Proofs/LegacyMean.v) *)
+Fixpoint mean_no_overflow_loop (m : b64) (i : Z) (xs : list b64) : bool :=
+  match xs with
+  | [] => true
+  | x :: xs' => b64_is_finite (b64_sub x m) && mean_no_overflow_loop (mean_step m i x) (i + 1) xs'
+  end.
+Definition mean_no_overflow (xs : list b64) : bool := mean_no_overflow_loop f_zero 0 xs.
